@@ -144,6 +144,25 @@ func (l *sessionManager) CreateSession(sessionId string) {
 	}
 }
 
+// DestroySessionIfEmpty deletes the session if no locks are associated with it. It returns true if
+// the session was deleted or did not exist. Checking and deleting are one step, so that a lock
+// added to the session by a request that is still in flight is never deleted with it.
+func (l *sessionManager) DestroySessionIfEmpty(sessionId string) bool {
+	l.sessionLocksMtx.Lock()
+	defer l.sessionLocksMtx.Unlock()
+
+	locks, ok := l.sessionLocks[sessionId]
+	if !ok {
+		return true
+	}
+	if len(locks) > 0 {
+		return false
+	}
+	delete(l.sessionLocks, sessionId)
+	l.Save()
+	return true
+}
+
 // DestroySession deletes the session and returns all locks associated with it
 func (l *sessionManager) DestroySession(sessionId string) []cl.Lock {
 	l.sessionLocksMtx.Lock()
